@@ -5,6 +5,7 @@ import (
 	"context"
 	"fmt"
 	"math/rand/v2"
+	"os"
 	"strings"
 	"testing"
 	"time"
@@ -230,7 +231,11 @@ func c05WholeRun(t *testing.T, s *sim.Scn) *sim.Outcome {
 	o := sim.NewOutcome()
 	images := 0
 	step := int(max64(1, s.Cfg["kstep"]))
-	for k := int(s.Cfg["k0"]); k < 400 && o.V == nil; k += step {
+	maxMembers := 400
+	if os.Getenv("VERIF_TIER") != "thorough" && os.Getenv("VERIF_REPLAY") == "" {
+		maxMembers = 10 // quick tier: a sample of the family (seeded first index and stride)
+	}
+	for k := int(s.Cfg["k0"]); k < 400 && images < maxMembers && o.V == nil; k += step {
 		sub := sim.NewOutcome()
 		fired := c05WholeOnce(t, s, k, sub)
 		o.Absorb(sub)
